@@ -104,6 +104,17 @@ def run(ctx):
                     continue
                 dinst = '%s::compare_bigint:(%s,%s):%s@%s' % (mod, names[sa], names[sb], nm, CB.path.rsplit('::', 1)[-1])
                 msb = all(any(x.endswith('::rev') or 'cmp_by' in x for x in ch_) for ch_ in (c0, c1))
+                helper = [n_ for n_ in callee_names(t) if n_ in ctx.F.bodies and n_.startswith('erltf::')]
+                if helper and not msb:
+                    # the digits are handed to a helper of the crate: look at how it walks them
+                    v, why = _digit_walk(P, helper[0])
+                    if v == 'ok':
+                        ctx.ok('C12.3-bigint-digits', dinst, '%s walks the digits from the most significant end (%s)' % (helper[0].rsplit('::', 1)[1], why), ctx.where(CB, bb))
+                    elif v == 'bad':
+                        ctx.bad('C12.3-bigint-digits', dinst, '%s: %s' % (helper[0].rsplit('::', 1)[1], why), ctx.where(CB, bb), key='SHAPE:%s:lsb-first' % fn)
+                    else:
+                        ctx.undecided('C12.3-bigint-digits', dinst, 'digit walk of %s not recognised (%s)' % (helper[0].rsplit('::', 1)[1], why))
+                    continue
                 if msb:
                     ctx.ok('C12.3-bigint-digits', dinst, 'both digit sequences are reversed before the comparison', ctx.where(CB, bb))
                 elif 'Vec<u8>' in tys or 'Iter' in tys or '[u8]' in tys:
@@ -223,6 +234,29 @@ def run(ctx):
                     ctx.ok('C12.5-recipes', inst, 'atoms are compared by their text')
                 else:
                     ctx.bad('C12.5-recipes', inst, 'atom arm does not compare the names: %s' % pr, ctx.where(B, r['bb']), key='SHAPE:%s:Atom:by-name' % cmpname)
+
+
+def _digit_walk(P, fn):
+    """How does helper `fn` (and its closures) walk two digit slices?  ('ok'|'bad'|'undecided', why)"""
+    from ..ranges import canon as _canon
+    bodies = bodies_of_fn(P, fn)
+    names = [(callee_of(t)[0] or '').rsplit('::', 1)[-1] for B in bodies for _, t in B.calls()]
+    reversed_walk = any(n in ('rev', 'rposition', 'next_back', 'rfold') for n in names)
+    # index ranges the helper iterates over: Range { start, end } aggregates
+    starts = []
+    for B in bodies:
+        for bb, j, st in B.stmts():
+            if st['k'] == '=' and st['rv']['k'] == 'agg' and str(st['rv'].get('adt', '')).endswith('ops::range::Range') and len(st['rv']['ops']) == 2:
+                starts.append(_canon(B, st['rv']['ops'][0]))
+    cmps = [1 for B in bodies for _, t in B.calls() if (callee_of(t)[0] or '').rsplit('::', 1)[-1] in ('cmp', 'partial_cmp')]
+    if not cmps:
+        return 'undecided', 'no comparison inside'
+    skipped = [s_ for s_ in starts if s_[0] == 'const' and isinstance(s_[1], int) and s_[1] >= 1]
+    if skipped:
+        return 'bad', 'the digit positions walked start at %s, so the %d least significant digit(s) are never compared: numbers differing only there compare Equal' % (skipped[0][1], skipped[0][1])
+    if not reversed_walk:
+        return 'bad', 'the digits are compared in stored order, i.e. from the LEAST significant byte'
+    return 'ok', 'reversed iteration' + (', positions from %s' % [s_[1] for s_ in starts if s_[0] == 'const'] if starts else '')
 
 
 def _sign_arms(B):
